@@ -250,6 +250,25 @@ func (x *Exec) evalCall(env *SpecEnv, e *ECall) SVal {
 			conj = append(conj, Eq(x.sat(sv.Base, At(sv.Off, IntLit(int64(i)))), IntLit(int64(lit.Val[i]))))
 		}
 		return SVal{VScalar{And(conj...)}, boolT}
+	case "hint":
+		// hint(e): a trigger device. Semantically true for every e (axiom below, itself triggered only by a
+		// hint term), so guarding a clause with it changes nothing; as an explicit pattern { hint(f) } it makes
+		// a hypothesis instantiate exactly for the terms a goal names with hint(...).
+		a := arg(0)
+		var t Term
+		if s, ok := a.V.(VStr); ok {
+			t = x.strTerm(s)
+		} else {
+			t = x.flatten(a.V)[0]
+		}
+		fn := "hint." + sanitize(string(t.Sort))
+		if !x.declared[fn] {
+			x.declared[fn] = true
+			x.decls = append(x.decls,
+				fmt.Sprintf("(declare-fun %s (%s) Bool)", fn, t.Sort),
+				fmt.Sprintf("(assert (forall ((h %s)) (! (%s h) :pattern ((%s h)))))", t.Sort, fn, fn))
+		}
+		return SVal{VScalar{App(fn, SBool, t)}, boolT}
 	case "held":
 		return SVal{x.ghostGet(env.st, "held", VSet{x.emptySetTerm(SInt)}), &SType{Math: "set", Elem: intT}}
 	case "isnil":
